@@ -347,7 +347,15 @@ func cmdCheck(args []string) int {
 	nViol := 0
 	seenVL := map[string]int{}
 	skippedReplays := 0
-	const maxReplaysPerLabel = 24
+	const maxReplaysPerLabel = 16
+	// select the counterexamples to replay (one per job and label, capped per label)
+	type rjob struct {
+		v    *Violation
+		file string
+		rr   *ReplayResult
+		err  error
+	}
+	var rjobs []*rjob
 	for n, v := range violations {
 		key := fmt.Sprintf("%s|%v|%s", v.Harness, v.Params, v.Label)
 		seenVL[key]++
@@ -366,26 +374,52 @@ func cmdCheck(args []string) int {
 			fmt.Fprintln(os.Stderr, "write replay:", err)
 			continue
 		}
-		to := 60 * time.Second
-		if v.Kind == "deadlock" || v.Kind == "depth-cap" {
-			to = 20 * time.Second
+		rjobs = append(rjobs, &rjob{v: v, file: file})
+	}
+	// replay natively, a few at a time (a counterexample that leaves a lock held or
+	// overflows the stack takes its whole time-out)
+	{
+		sem := make(chan struct{}, 6)
+		var rwg sync.WaitGroup
+		for _, rj := range rjobs {
+			rwg.Add(1)
+			go func(rj *rjob) {
+				defer rwg.Done()
+				sem <- struct{}{}
+				defer func() { <-sem }()
+				to := 30 * time.Second
+				if rj.v.Kind == "deadlock" || rj.v.Kind == "depth-cap" {
+					to = 20 * time.Second
+				}
+				rr, err := rp.Run(rj.v, rj.file, to)
+				if err == nil {
+					rj.v.Reproduced = reproduced(rj.v, rr)
+					// Go randomises map iteration; the engine explores one order (or the
+					// permuted ones): give order-dependent counterexamples more native runs
+					for try := 0; !rj.v.Reproduced && try < 12 && !rr.TimedOut; try++ {
+						rr, err = rp.Run(rj.v, rj.file, to)
+						if err != nil {
+							break
+						}
+						rj.v.Reproduced = reproduced(rj.v, rr)
+					}
+				}
+				rj.rr, rj.err = rr, err
+			}(rj)
 		}
-		rr, err := rp.Run(v, file, to)
-		if err != nil {
-			inconc["replay build failed: "+firstLine(err.Error())]++
+		rwg.Wait()
+	}
+	for _, rj := range rjobs {
+		v, file := rj.v, rj.file
+		if rj.err != nil || rj.rr == nil {
+			msg := "replay failed"
+			if rj.err != nil {
+				msg = firstLine(rj.err.Error())
+			}
+			inconc["replay build failed: "+msg]++
 			continue
 		}
-		v.Reproduced = reproduced(v, rr)
-		// Go randomises map iteration; the engine explores one order (or the permuted
-		// ones): give order-dependent counterexamples a few more native runs
-		for try := 0; !v.Reproduced && try < 12 && !rr.TimedOut; try++ {
-			rr, err = rp.Run(v, file, to)
-			if err != nil {
-				break
-			}
-			v.Reproduced = reproduced(v, rr)
-		}
-		v.ReplayOut = tail(rr.Out, 1500)
+		v.ReplayOut = tail(rj.rr.Out, 1500)
 		writeAssignment(file, v)
 		if !v.Reproduced {
 			discrepancies = append(discrepancies, fmt.Sprintf("%s%v label=%s kind=%s: model did not reproduce natively", v.Harness, v.Params, v.Label, v.Kind))
